@@ -45,7 +45,11 @@ def run_demo(wt, demo_dir):
         copied.append(dst)
         dirs.add("./" + d + "/")
     if not dirs:
-        return None, "no *_test.go demo files"
+        # shell demonstration: demo.sh <worktree>; exit status 0 = passes
+        shs = sorted(glob.glob(os.path.join(demo_dir, "*.sh")))
+        if shs:
+            return sh(["sh", shs[0], wt], cwd=demo_dir, timeout=1200)
+        return None, "no *_test.go / *.sh demo files"
     rc, out = sh(["go", "test", "-vet=off", "-count=1", "-run", "Seed|seed|Demo", "-timeout", "600s"] + sorted(dirs), cwd=wt)
     for c in copied:
         os.remove(c)
